@@ -578,7 +578,13 @@ def run(ctx: Ctx):
                 ctx.fail(cons + "#key", ga.loc(deliv[0]), f"the key used on delivery ({kf}) differs from "
                          f"the key recorded when the request was routed ({key_fields})")
             facts = must_facts(ga, ata, deliv[0])
-            if (kvar, "in-expr", "self._app_waiting_answer", True) not in facts:
+            # known identifiers: the key is in the table, or what a tolerant pop()/get() of the table
+            # returned for it is not None
+            got = any(isinstance(d.ast.value, ast.Call) and d.ast.value.func.attr in ("pop", "get") for d in adef
+                      if isinstance(d.ast.value, ast.Call) and isinstance(d.ast.value.func, ast.Attribute))
+            found = got and any(x[0] == av and ((x[1] == "is" and x[2] is None and x[3] is False)
+                                                or (x[1] == "truthy" and x[3] is True)) for x in facts)
+            if (kvar, "in-expr", "self._app_waiting_answer", True) not in facts and not found:
                 ctx.fail(cons + "#unknown", ga.loc(deliv[0]), "an answer with unknown identifiers is delivered")
     cons = "_app_waiting_answer:released-only-on-delivery"
     ctx.inst(cons)
